@@ -274,6 +274,55 @@ def stray_after(n, k):
     sx.reach("stray")
 
 
+def upload_interrupts(n, small):
+    """a segmented download in progress, then an upload initiate (which ends it), then any frame that is not
+    a download initiate: nothing may be stored anywhere"""
+    rig = ServerRig(sdo_od())
+    cli = RefClient(rig.deliver, "C02")
+    p1 = sx.fresh_bytes("p1", n)
+    if small == 4:
+        # a writable byte-string object that currently holds a short (expedited) value
+        cli.download(0x2001, 0, sx.items(sx.fresh_bytes("short", 3)), "exp-size")
+    cli.xfer([0x21, 0x00, 0x20, 0] + [n, 0, 0, 0])
+    cli.xfer([0x00] + sx.items(p1)[:7] + [0] * max(0, 7 - n))
+    before = rig.store_snapshot()
+    # the interrupting upload: an expedited one (small) or a segmented / refused one
+    idx, sub = {1: (0x2022, 0), 2: (0x2030, 1), 3: (0x2023, 0), 4: (0x2001, 0)}[small]
+    res = cli.upload(idx, sub) if small != 3 else cli.xfer([0x40, 0x23, 0x20, 0, 0, 0, 0, 0])
+    f = sx.fresh_bytes("f", 8)
+    sx.assume((sx.items(f)[0] >> 5) != 1)
+    try:
+        rig.deliver(f)
+    except Exception as e:
+        sx.fail("server raised %s" % C.exc_name(e), "C02/upload-interrupts/raises")
+        return
+    after = rig.store_snapshot()
+    same = set(after) == set(before) and sx.all_([sx.eq_bytes(after[k], before[k]) for k in after]) is not False
+    sx.prove(same, "a download segment after an intervening upload stored something", "C02/upload-interrupts/stored-shape")
+    if set(after) == set(before):
+        sx.prove(sx.all_([sx.eq_bytes(after[k], before[k]) for k in after]),
+                 "a download segment after an intervening upload changed a stored value", "C02/upload-interrupts/stored")
+    sx.reach("upload-interrupts")
+
+
+def two_members():
+    """downloads to two members of one record/array are both kept"""
+    rig = ServerRig(sdo_od())
+    cli = RefClient(rig.deliver, "C02")
+    a = sx.fresh_bytes("a", 2)
+    b = sx.fresh_bytes("b", 2)
+    for idx, s1, s2 in ((0x2040, 1, 2), (0x2040, 2, 1)):
+        sx.prove(cli.download(idx, s1, sx.items(a), "exp-size") is None, "member download refused", "C02/members/refused")
+        sx.prove(cli.download(idx, s2, sx.items(b), "exp-size") is None, "member download refused", "C02/members/refused")
+        r1, r2 = cli.upload(idx, s1), cli.upload(idx, s2)
+        ok = r1 is not None and r2 is not None and not isinstance(r1, Abort) and not isinstance(r2, Abort)
+        sx.prove(ok, "member upload refused after writing its sibling", "C02/members/upload-refused")
+        if ok:
+            sx.prove(sx.eq_bytes(sx.mkbytes(r1[0]), a) & sx.eq_bytes(sx.mkbytes(r2[0]), b),
+                     "a download to one member changed what its sibling returns", "C02/members/value")
+    sx.reach("two-members")
+
+
 def interleaved(n):
     """a valid segmented transfer interrupted by a restart: a new initiate mid-transfer restarts cleanly"""
     rig = ServerRig(sdo_od())
@@ -341,6 +390,10 @@ def jobs(tier):
                     out.append(dict(func="robust_history", params=dict(k=k, tail=tail, ccs0=c), weight=40 ** k))
     for n in (5, 7, 8, 14):
         out.append(dict(func="interleaved", params=dict(n=n)))
+    for n in (5, 9):
+        for small in (1, 2, 3, 4):
+            out.append(dict(func="upload_interrupts", params=dict(n=n, small=small), weight=30))
+    out.append(dict(func="two_members", params={}))
     for n in (3, 10, 14):
         for k in (1, 2):
             out.append(dict(func="stray_after", params=dict(n=n, k=k), weight=30 ** k))
@@ -368,7 +421,7 @@ META = dict(
     stubs=["struct", "bytes/bytearray", "dict displays -> SymDict", "logging", "Network.send_message replaced on the instance"],
     required_reach=["upload-callback", "upload-store", "upload-value", "upload-default", "upload-empty",
                     "upload-segmented", "download-exp-size", "download-exp-nosize", "download-seg-size",
-                    "download-seg-nosize", "robust-step", "abort-request", "robust-history", "interleaved", "stray"],
+                    "download-seg-nosize", "robust-step", "abort-request", "robust-history", "interleaved", "stray", "upload-interrupts", "two-members"],
     limits=dict(quick=dict(max_decisions=20000), thorough=dict(max_decisions=20000, job_timeout_s=3000)),
     validate_every=dict(quick=5, thorough=50),
     max_validate=dict(quick=60, thorough=60),
